@@ -1378,6 +1378,15 @@ def err_fingerprint(res):
     return out
 
 
+from d42.representation import Representor as _Representor  # noqa: E402
+from d42.validation import Validator as _Validator  # noqa: E402
+_PathHolder = PathHolder
+
+
+class _PathHolder2(_PathHolder):
+    pass
+
+
 def custom_problem(spec, flags, val, w):
     """'' when the tree with forwarding custom types at the flagged nodes validates, prints and substitutes
     exactly like the plain tree (C16)."""
@@ -1387,6 +1396,14 @@ def custom_problem(spec, flags, val, w):
         return "validation errors differ"
     if represent(T) != represent(Tw):
         return "printed form differs"
+    # a second, differently configured instance of a visitor class the tree has already been visited with
+    r2 = _Representor(name="s", indent=2)
+    if T.__accept__(r2) != Tw.__accept__(r2):
+        return "printed form differs for a second Representor instance"
+    v2 = _Validator(path_holder_factory=_PathHolder2)
+    e1, e2 = T.__accept__(v2, value=val), Tw.__accept__(v2, value=val)
+    if err_fingerprint(e1) != err_fingerprint(e2) or [type(x.path) for x in e1.get_errors()] != [type(x.path) for x in e2.get_errors()]:
+        return "validation errors differ for a second Validator instance"
     try:
         R = substitute(T, val)
         r1 = True
